@@ -243,7 +243,9 @@ def run_scheme(col, modname, clsname, cfgs, tier):
         try:
             before = numeric.USED["leggauss"]
             sc = it.call(cls, [], dict(cfg))
-            uses_leggauss = numeric.USED["leggauss"] != before
+            # the rule's numbers come from numpy's leggauss (summarised to 70 digits) if the constructor called it now -- or earlier, when the
+            # module memoises the call (a cache must not turn 1e-76 residuals into alarms)
+            uses_leggauss = numeric.USED["leggauss"] != before or (numeric.USED["leggauss"] > 0 and "leggauss" in open(it.module(modname).path).read())
         except InterpRaise as e:
             col.add("C05.O1", label, "the documented configuration can be constructed", False, "constructor raises %s" % e)
             continue
@@ -390,6 +392,35 @@ def run_purity(col):
                     return same(), "%s: inv() altered the rule it was called on" % where_of(cls)
                 col.check("C05.O6", "%s.inv() leaves the rule unchanged" % label, "inv() returns a new scheme and does not alter this one", chk_inv)
             nchecked += 1
+    # schemes are independent values: whatever is done to the arrays of one scheme object (a rule mapped to [0, 1] in place, ...), a scheme
+    # constructed afterwards with the same arguments has the points and weights of a freshly constructed one
+    indep = dict(small)
+    indep["GaussLegendre"] = small["GaussLegendre"] + [dict(order=2, dim=1), dict(order=3, dim=1, permute=False)]
+    indep["GaussLegendreBoundary"] = small["GaussLegendreBoundary"] + [dict(order=2, dim=2)]
+    for mn, cn in _discover(it):
+        for cfg in indep.get(cn, []):
+            cls = it.get(mn + ":" + cn)
+            label = "%s(%s)" % (cn, ", ".join("%s=%s" % kv for kv in cfg.items()))
+
+            def chk_ind(cls=cls, cfg=cfg):
+                first = it.call(cls, [], dict(cfg))
+                p0 = npmodel.to_obj(it.getattr(first, "points")).copy()
+                w0 = npmodel.to_obj(it.getattr(first, "weights")).copy()
+                for nm in ("points", "weights"):
+                    arr = it.getattr(first, nm)
+                    arr[...] = npmodel.to_obj(arr) * 3 + 1
+                variants = [first]
+                if cls.find("inv")[0] is not None:
+                    inv = it.call_method(it.call(cls, [], dict(cfg)), "inv", [])
+                    wi = it.getattr(inv, "weights")
+                    wi[...] = npmodel.to_obj(wi) * 5
+                second = it.call(cls, [], dict(cfg))
+                p1 = npmodel.to_obj(it.getattr(second, "points"))
+                w1 = npmodel.to_obj(it.getattr(second, "weights"))
+                okk = p1.shape == p0.shape and w1.shape == w0.shape and all(ring.is_zero(P(a) - P(b)) for a, b in zip(p1.reshape(-1), p0.reshape(-1))) and all(
+                    ring.is_zero(P(a) - P(b)) for a, b in zip(w1.reshape(-1), w0.reshape(-1)))
+                return okk, "%s: a scheme constructed after another scheme's arrays were changed in place does not have the rule's points / weights" % where_of(cls)
+            col.check("C05.O6", "%s constructed after another instance was modified" % label, "every scheme object owns its points and weights: in-place changes of one instance (or of its inverse) do not reach schemes constructed later", chk_ind)
     col.info["purity_configs"] = nchecked
     finish_info(col, it)
 
